@@ -130,6 +130,27 @@ class Check:
                         vio.append({'what': 'MosReader.from_%s does not report / restore the message faithfully' % how,
                                     'case': {'kind': 'reader', 'text': text, 'how': how}, 'impl': [r.message_id, r.ro_id, r.mos_type.__name__], 'expected': [want.message_id, want.ro_id, type(want).__name__]})
                 mr = engine.readers_cases([{'docs': [text], 'inc': True}])
+            # collections: the three constructors over the same contents (documents supplied twice, XML declarations of
+            # other encodings and odd S3 keys included - c09.sequences, impl.run_coll) merge to the same result
+            import itertools
+            from checks import c09
+            for docs_ in itertools.islice(c09.sequences(tier, rng), 60 if tier == 'quick' else 600):
+                case = {'docs': docs_, 'inc': True, 'strict': True}
+                outs = {how: impl.run_coll(docs_, True, True, how=how, tmpdir=tmp) for how in ('strings', 'files', 's3')}
+                key = lambda io: (io.get('err0'), io.get('err'), io.get('tree'), tuple(io.get('warns') or ()))
+                n += 3
+                sigs.add(('collection', outs['strings'].get('err0') or outs['strings'].get('err')))
+                for how in ('files', 's3'):
+                    if key(outs[how]) != key(outs['strings']):
+                        vio.append({'what': 'a collection built by from_%s merges to another result than the one built by from_strings over the same contents (%s / %s)'
+                                            % (how, outs[how].get('err0') or outs[how].get('err') or 'merged', outs['strings'].get('err0') or outs['strings'].get('err') or 'merged'),
+                                    'case': {'kind': 'collection', 'docs': docs_, 'how': how}, 'impl': str(key(outs[how])[:2]), 'expected': str(key(outs['strings'])[:2])})
+                        break
+                mo = engine.coll_cases([case])[0]
+                a = (outs['strings'].get('err0'), outs['strings'].get('err'), outs['strings'].get('tree'))
+                b = (mo.get('err0'), mo.get('err'), mo.get('tree'))
+                if a != b:
+                    dis.append({'case': {'kind': 'collection', 'docs': docs_, 'how': 'strings'}, 'impl': str(a[:2]), 'model': str(b[:2]), 'explained': False})
             # listings
             npages = 5 if tier == 'quick' else 20
             for trial in range(60 if tier == 'quick' else 600):
@@ -186,6 +207,14 @@ class Check:
                 got = s3mod.get_mos_files('bucket', case.get('prefix', 'pre/'), suffix=case['suffix'])
                 want = [c['Key'] for p in case['pages'] for c in p.get('Contents', []) if c['Key'].endswith(case['suffix'])]
                 return {'violation': got != want, 'got': got, 'want': want}
+            if case.get('kind') == 'collection':
+                tmp = tempfile.mkdtemp(prefix='mosverif-c18-')
+                try:
+                    outs = {how: impl.run_coll(case['docs'], True, True, how=how, tmpdir=tmp) for how in ('strings', 'files', 's3')}
+                finally:
+                    shutil.rmtree(tmp, ignore_errors=True)
+                key = lambda io: (io.get('err0'), io.get('err'), io.get('tree'), tuple(io.get('warns') or ()))
+                return {'violation': any(key(outs[h]) != key(outs['strings']) for h in outs), 'results': {h: str(key(outs[h])[:2]) for h in outs}}
             if case.get('kind') == 'source':
                 enc = case['encoding']
                 data = ('<?xml version="1.0" encoding="%s"?>' % enc + case['text']).encode(enc)
